@@ -119,3 +119,17 @@ impl LuaIndex for DiagnosticIndex {
         self.file_diagnostic_enabled.clear();
     }
 }
+
+/// Verification hook (feature `verif-hooks`, off by default): entry count of every container
+/// of this index, so that tests can observe growth of indexed state.
+#[cfg(feature = "verif-hooks")]
+impl DiagnosticIndex {
+    pub fn verif_sizes(&self) -> Vec<(&'static str, usize)> {
+        vec![
+            ("diagnostic.diagnostic_actions", self.diagnostic_actions.len()),
+            ("diagnostic.diagnostics", self.diagnostics.len()),
+            ("diagnostic.file_diagnostic_disabled", self.file_diagnostic_disabled.len()),
+            ("diagnostic.file_diagnostic_enabled", self.file_diagnostic_enabled.len()),
+        ]
+    }
+}
